@@ -140,7 +140,7 @@ func histories(r *Run) {
 		switch op {
 		case 0:
 			name = "damage"
-			w.DamageData(r, []string{"delete", "flip", "truncate", "prepend", "swap", "append-zeros", "overwrite", "remove-bytes", "empty", "copy-over", "append-garbage", "insert"})
+			w.DamageData(r, []string{"delete", "flip", "truncate", "prepend", "swap", "append-zeros", "overwrite", "remove-bytes", "empty", "copy-over", "append-garbage", "insert", "forge-crc"})
 			if lastRepairOK {
 				r.Probe("damage-after-repair")
 			}
